@@ -189,8 +189,47 @@ def check_full_batches_many_keys(ctx):
             break
 
 
+def check_late_history(ctx):
+    """the ring index and the stored-row count late in a long history: `position` is an int32 counter, so a
+    buffer that has already received p0 insertions (state built by setting the counter; older rows are not
+    tracked) is compared with the int32 model `Buf32` (LeraxProofs/C06Int32.lean: it refines the Nat model for
+    every history below 2^31 insertions).  p0 sits beyond float32's exact-integer range and just below 2^31;
+    histories stay below 2^31 insertions, where the property is claimed."""
+    obs_space, act_space = _spaces(False)
+
+    @eqx.filter_jit
+    def add_many(buf, tags):
+        return jax.lax.scan(lambda b, t: (b.add(**_row(t, False)), None), buf, tags)[0]
+
+    for rep in range(ctx.budget(8, 32)):
+        cap = int(ctx.rng.choice([1, 2, 3, 5, 7, 8, 12, 16, 31]))
+        k = int(ctx.rng.integers(1, 3 * cap + 2))
+        p0 = int(ctx.rng.choice([2**24 + 1, 2**24 + int(ctx.rng.integers(0, 2**24)), 2**30 + 3,
+                                 int(ctx.rng.integers(2**24, 2**31 - k)), 2**31 - 1 - k]))
+        b = ReplayBuffer(cap, obs_space, act_space, CountState(jnp.array(0, dtype=int)))
+        b = eqx.tree_at(lambda rb: rb.position, b, jnp.asarray(p0, dtype=b.position.dtype))
+        b = add_many(b, 1 + jnp.arange(k))
+        tags, written, aligned = _tags_of(b, False)
+        slot_tags = [(int(tags[j]) - 1) if written[j] else None for j in range(cap)]
+        pos, cur = int(b.position), int(b.current_size)
+        mask = (np.arange(cap) < cur).tolist()
+        case = {"kind": "replay-late-history", "cap": cap, "p0": p0, "k": k, "slot_tags": slot_tags,
+                "position": pos, "current_size": cur}
+        ctx.case({"late": True, "cap": cap, "p0": p0, "k": k}, True, sample=case if rep < 1 else None)
+        ctx.count("late-history-cases")
+        stored = sorted(t for t in slot_tags if t is not None)
+        if stored != list(range(max(0, k - cap), k)) or cur != min(p0 + k, cap) or not bool(aligned.all()):
+            ctx.phi_fail("contents_are_last_min_n_C", case, key="late-history:contents_are_last_min_n_C")
+            continue
+        m = ctx.drv.call("replay_model32", cap=cap, p0=p0, k=k)
+        if not (m["slots"] == slot_tags and m["pos"] == pos and m["current_size"] == cur and m["mask"] == mask):
+            ctx.disagree("late-history slots/position/current_size", case,
+                         impl={"slots": slot_tags, "pos": pos, "cur": cur}, model=m)
+
+
 def run(ctx):
     check_full_batches_many_keys(ctx)
+    check_late_history(ctx)
     rng = ctx.rng
     caps = ctx.budget([1, 2, 3, 5, 8, 16], [1, 2, 3, 4, 5, 7, 8, 13, 16, 32, 64, 128])
     idx = 0
